@@ -206,6 +206,27 @@ def lem_den_cong(a, b, lo, hi):
                       z3.And(Ww(a, lo, hi) == Ww(b, lo, hi), Wc(a, lo, hi) == Wc(b, lo, hi)))
 
 
+def lem_filter_prefix(g, m):
+    """selection lemma, prefix instance (proved by induction on m in props/lemmas.py): a prefix of m kept elements stays
+    in place"""
+    S, R, n0, n, idx, keep = g['S'], g['R'], g['n0'], g['n'], g['idx'], g['keep']
+    j = fresh_int('j')
+    allkept = z3.ForAll([j], z3.Implies(z3.And(0 <= j, j < m), keep(S[j])))
+    return z3.Implies(z3.And(0 <= m, m <= n0, allkept),
+                      z3.And(m <= n, z3.ForAll([j], z3.Implies(z3.And(0 <= j, j < m), z3.And(idx(j) == j, R.arr[j] == S[j])))))
+
+
+def lem_filter_suffix(g, m):
+    """selection lemma, suffix instance (mirror image): a suffix S[m:] of kept elements stays at the end"""
+    S, R, n0, n, idx, keep = g['S'], g['R'], g['n0'], g['n'], g['idx'], g['keep']
+    j, t = fresh_int('j'), fresh_int('t')
+    allkept = z3.ForAll([j], z3.Implies(z3.And(m <= j, j < n0), keep(S[j])))
+    d = n - (n0 - m)
+    return z3.Implies(z3.And(0 <= m, m <= n0, allkept),
+                      z3.And(d >= 0, z3.ForAll([t], z3.Implies(z3.And(0 <= t, t < n0 - m),
+                                                               z3.And(idx(d + t) == m + t, R.arr[d + t] == S[m + t])))))
+
+
 def ax_empty():
     a = z3.Const('a!ax', OpArr)
     i = z3.Int('i!ax')
@@ -615,6 +636,11 @@ class AlgTheory(Theory):
                           z3.ForAll([k, k2], z3.Implies(z3.And(k >= 0, k < k2, k2 < n), idx(k) < idx(k2))),
                           z3.ForAll([j], z3.Implies(z3.And(j >= 0, j < n0, zbool(keep(S[j]))),
                                                     z3.And(inv(j) >= 0, inv(j) < n, idx(inv(j)) == j)), patterns=[inv(j)])))
+        # selection lemma (induction on k, proved in props/lemmas.py `selection_lemmas`): a strictly increasing selection
+        # of n out of n0 positions satisfies k <= idx(k) <= n0 - n + k
+        run.assume(z3.ForAll([k], z3.Implies(z3.And(k >= 0, k < n), z3.And(k <= idx(k), idx(k) <= n0 - n + k)),
+                             patterns=[idx(k)]))
+        run.ghost['last_filter'] = dict(S=S, n0=n0, R=R, n=n, idx=idx, inv=inv, keep=lambda x: zbool(keep(x)))
         # filter lemma (induction over the list, trusted): if every dropped element is a neutral square factor, the
         # product, the typing of the chain and its end structures are unchanged
         neutral = z3.ForAll([j], z3.Implies(z3.And(j >= 0, j < n0, z3.Not(zbool(keep(S[j])))),
